@@ -1,7 +1,9 @@
 (* Sched.v -- the shared memory map of one Array object and its users: iterchunks
    generators, open_array() contexts, element reads and writes.  Follows Array._open_array
    (after the user-counting fix): whoever finds no map opens one; every user increments a
-   counter on entry and decrements it on exit; the LAST one closes map and file.
+   counter on entry and decrements it on exit; the LAST one closes map and file.  When the
+   length changes while the array is open (append / truncate inside a context) the map is
+   renewed.
    Touching a closed map is the outcome OCrash.  No proofs. *)
 From Coq Require Import ZArith List Bool.
 From Darr Require Import Base Gen_frames.
@@ -14,8 +16,10 @@ Fixpoint cget (c : contents) (i : Z) : Z :=
   match c with [] => i | (j, v) :: t => if j =? i then v else cget t i end.
 Definition cset (c : contents) (i v : Z) : contents := (i, v) :: c.
 
+(* iterchunks parameters: chunklen, stepsize, startindex, endindex, include_remainder *)
+Definition gparams := (Z * option Z * option Z * option Z * bool)%type.
 Inductive gstate :=
-| GNew (frames : list (Z * Z))                 (* created, not yet advanced *)
+| GNew (p : gparams)                           (* created, not yet advanced: nothing has run *)
 | GActive (map : nat) (rest : list (Z * Z))    (* inside `with _open_array()`, holding map *)
 | GDone.
 
@@ -40,7 +44,8 @@ Inductive action :=
 | AEnter | AExit
 | ARead (i : Z)
 | AWrite (i v : Z)
-| AAccessErr.        (* a[idx] / a[idx] = v for which NumPy raises: enter, raise, leave *)
+| AAccessErr         (* a[idx] / a[idx] = v for which NumPy raises: enter, raise, leave *)
+| AResize (n : Z).   (* a completed append / truncate_array: the length becomes n (Array._update_len) *)
 
 Inductive outcome :=
 | ONothing
@@ -80,6 +85,20 @@ Definition set_ctx (s : sched) (c : list nat) : sched :=
 Definition set_data (s : sched) (c : contents) : sched :=
   mkSched (sc_cache s) (sc_open s) (sc_next s) (sc_users s) (sc_gens s) (sc_ctx s) c (sc_len s).
 
+Definition set_open (s : sched) (o : list nat) : sched :=
+  mkSched (sc_cache s) o (sc_next s) (sc_users s) (sc_gens s) (sc_ctx s) (sc_data s) (sc_len s).
+
+(* which generators still hold (a reference to) map m *)
+Definition holds_b (m : nat) (g : gstate) : bool := match g with GActive m' _ => Nat.eqb m' m | _ => false end.
+Definition held (m : nat) (gens : list gstate) : bool := existsb (holds_b m) gens.
+
+(* a finished generator drops its reference to map m; a map that is neither the cached one nor
+   held by another generator is closed with it (reference counting).  Maps other than the cached
+   one exist only after the length changed while the array was open (AResize). *)
+Definition drop_ref (s : sched) (m : nat) : sched :=
+  if (match sc_cache s with Some c => Nat.eqb c m | None => false end) || held m (sc_gens s) then s
+  else set_open s (remove_nat m (sc_open s)).
+
 Fixpoint replace_nth {A} (n : nat) (x : A) (l : list A) : list A :=
   match l, n with
   | [], _ => []
@@ -98,34 +117,31 @@ Definition advance_active (s : sched) (g : nat) (m : nat) (rest : list (Z * Z)) 
       if mem_nat m (sc_open s)
       then (OChunk a b (chunk_obs (sc_data s) a b), set_gens s (replace_nth g (GActive m rest') (sc_gens s)))
       else (OCrash, s)
-  | [] => (OStop, release (set_gens s (replace_nth g GDone (sc_gens s))))
+  | [] => (OStop, drop_ref (release (set_gens s (replace_nth g GDone (sc_gens s)))) m)
   end.
 
 Definition sched_step (s : sched) (a : action) : outcome * sched :=
   match a with
   | AStart c so sto eno fl =>
       (* creating the generator object runs nothing; iterindices is evaluated at the first
-         next(); an invalid parameter set shows then *)
-      match iterindices (sc_len s) c so sto eno fl with
-      | Ok frames => (ONothing, set_gens s (sc_gens s ++ [GNew frames]))
-      | Err _ => (ONothing, set_gens s (sc_gens s ++ [GNew [(-1, -1)]]))   (* marker: raises at first next *)
-      end
+         next(), with the length the array has THEN; an invalid parameter set shows then *)
+      (ONothing, set_gens s (sc_gens s ++ [GNew (c, so, sto, eno, fl)]))
   | AAdvance g =>
       match nth_error (sc_gens s) g with
-      | Some (GNew [(-1, -1)]) =>
-          (* enters _open_array, iterindices raises, the with block is left again *)
+      | Some (GNew (c, so, sto, eno, fl)) =>
           let '(m, s1) := acquire s in
-          (ORaise, release (set_gens s1 (replace_nth g GDone (sc_gens s1))))
-      | Some (GNew frames) =>
-          let '(m, s1) := acquire s in
-          advance_active (set_gens s1 (replace_nth g (GActive m frames) (sc_gens s1))) g m frames
+          match iterindices (sc_len s1) c so sto eno fl with
+          | Ok frames => advance_active (set_gens s1 (replace_nth g (GActive m frames) (sc_gens s1))) g m frames
+          | Err _ => (* enters _open_array, iterindices raises, the with block is left again *)
+              (ORaise, release (set_gens s1 (replace_nth g GDone (sc_gens s1))))
+          end
       | Some (GActive m rest) => advance_active s g m rest
       | Some GDone => (OStop, s)
       | None => (ONothing, s)
       end
   | AClose g =>
       match nth_error (sc_gens s) g with
-      | Some (GActive m _) => (ONothing, release (set_gens s (replace_nth g GDone (sc_gens s))))
+      | Some (GActive m _) => (ONothing, drop_ref (release (set_gens s (replace_nth g GDone (sc_gens s)))) m)
       | Some (GNew _) => (ONothing, set_gens s (replace_nth g GDone (sc_gens s)))
       | _ => (ONothing, s)
       end
@@ -143,6 +159,16 @@ Definition sched_step (s : sched) (a : action) : outcome * sched :=
       if mem_nat m (sc_open s1) then (ONothing, release (set_data s1 (cset (sc_data s1) i v))) else (OCrash, s1)
   | AAccessErr =>
       let '(m, s1) := acquire s in (ORaise, release s1)
+  | AResize n =>
+      (* _update_len: when the array is open its memory map is renewed for the new length; the old
+         map is not closed, it lives on while a generator still reads from it *)
+      match sc_cache s with
+      | None => (ONothing, mkSched None (sc_open s) (sc_next s) (sc_users s) (sc_gens s) (sc_ctx s) (sc_data s) n)
+      | Some m =>
+          let m' := sc_next s in
+          let rest := if held m (sc_gens s) then sc_open s else remove_nat m (sc_open s) in
+          (ONothing, mkSched (Some m') (m' :: rest) (S m') (sc_users s) (sc_gens s) (sc_ctx s) (sc_data s) n)
+      end
   end.
 
 Fixpoint sched_run (s : sched) (acts : list action) : list outcome * sched :=
